@@ -14,6 +14,7 @@
  R7 window            : the tested availability window is the granted one (free search, fixed N, widening probe): slice
                         bounds, pattern length, guard-band indices and the candidate triple agree (index algebra).
  R5 first fit         : policy dispatch picks candidate 0 (first) / -1 (last) of an ascending scan.
+ Rm memo          : every memoisation construct in the functions behind this property is keyed by everything it reads.
 """
 import ast
 
@@ -701,4 +702,9 @@ def r7_window(ctx):
     ctx.need('R7.window', 11)
 
 
-RULES = [('R7.window', r7_window), ('R6.merge-probe', r6_merge_and_probe), ('R1.fresh', r1_fresh), ('R2.commit', r2_commit), ('R4.slots', r4_slots), ('R5.first-fit', r5_first_fit)]
+
+from ..memo import rule_for as _memo_rule
+
+RULES_MEMO = ('Rm.memo', _memo_rule('C14', 'spectrum availability computed for another state would be reused'))
+
+RULES = [('R7.window', r7_window), ('R6.merge-probe', r6_merge_and_probe), ('R1.fresh', r1_fresh), ('R2.commit', r2_commit), ('R4.slots', r4_slots), ('R5.first-fit', r5_first_fit), RULES_MEMO]
